@@ -3,11 +3,133 @@ package prig
 import (
 	"encoding/json"
 	"fmt"
+	"time"
 
 	"github.com/spikeekips/mitum/base"
 	"github.com/spikeekips/mitum/util"
+	"github.com/spikeekips/mitum/util/localtime"
 	"github.com/spikeekips/mitum/util/valuehash"
 )
+
+// freshSign makes a correct node signature of priv over fact with its own
+// signed-at time (now + offset), so that repeated signatures of one node are
+// valid but not byte-identical. It is checked with the sign's own Verify.
+func freshSign(env *Env, node base.Address, priv base.Privatekey, fact base.Fact, offset time.Duration) base.BaseNodeSign {
+	now := localtime.New(localtime.Now().UTC().Add(offset))
+
+	sig, err := priv.Sign(util.ConcatBytesSlice(
+		env.NetworkID,
+		util.ConcatByters(node, util.BytesToByter(fact.Hash().Bytes())),
+		now.Bytes(),
+	))
+	if err != nil {
+		panic(err)
+	}
+
+	ns := base.NewBaseNodeSign(node, priv.Publickey(), sig, now.Time)
+	if err := ns.Verify(env.NetworkID, fact.Hash().Bytes()); err != nil {
+		panic(fmt.Errorf("fresh sign does not verify: %w", err))
+	}
+
+	return ns
+}
+
+// appendSignsWire rebuilds op through the wire format with extra signs
+// appended and the operation hash recomputed.
+func appendSignsWire(env *Env, op base.Operation, extra []base.NodeSign) (base.Operation, error) {
+	b, err := util.MarshalJSON(op)
+	if err != nil {
+		return nil, err
+	}
+
+	var m map[string]json.RawMessage
+	if err := json.Unmarshal(b, &m); err != nil {
+		return nil, err
+	}
+
+	var signs []json.RawMessage
+	if err := json.Unmarshal(m["signs"], &signs); err != nil {
+		return nil, err
+	}
+
+	n := len(signs) + len(extra)
+
+	for i := range extra {
+		sb, err := util.MarshalJSON(extra[i])
+		if err != nil {
+			return nil, err
+		}
+
+		signs = append(signs, sb)
+	}
+
+	decode := func() (base.Operation, error) {
+		sb, err := json.Marshal(signs)
+		if err != nil {
+			return nil, err
+		}
+
+		m["signs"] = sb
+
+		nb, err := json.Marshal(m)
+		if err != nil {
+			return nil, err
+		}
+
+		i, err := env.Enc.Decode(nb)
+		if err != nil {
+			return nil, err
+		}
+
+		nop, ok := i.(base.Operation)
+		if !ok {
+			return nil, fmt.Errorf("decoded %T is not an operation", i)
+		}
+
+		return nop, nil
+	}
+
+	nop, err := decode()
+	if err != nil {
+		return nil, err
+	}
+
+	hb, ok := nop.(interface{ HashBytes() []byte })
+	if !ok {
+		return nil, fmt.Errorf("no HashBytes on %T", nop)
+	}
+
+	h, err := json.Marshal(valuehash.NewSHA256(hb.HashBytes()))
+	if err != nil {
+		return nil, err
+	}
+
+	m["hash"] = h
+
+	if nop, err = decode(); err != nil {
+		return nil, err
+	}
+
+	if len(nop.Signs()) != n {
+		return nil, fmt.Errorf("decoded signs %d != %d", len(nop.Signs()), n)
+	}
+
+	return nop, nil
+}
+
+// repeatedMemberSigns: r fresh, valid, pairwise different signatures of one
+// member.
+func repeatedMemberSigns(env *Env, m Member, fact base.Fact, r int) ([]base.NodeSign, []SignMeta) {
+	signs := make([]base.NodeSign, r)
+	metas := make([]SignMeta, r)
+
+	for i := 0; i < r; i++ {
+		signs[i] = freshSign(env, m.Addr, m.Priv, fact, time.Duration(i+1)*7*time.Millisecond)
+		metas[i] = SignMeta{Node: m.Addr.String(), Pub: m.Priv.Publickey().String(), SigValid: true}
+	}
+
+	return signs, metas
+}
 
 // duplicateSigns rebuilds op through the wire format (the only way an
 // operation with repeated signers can exist: SetNodeSigns / NodeSign /
